@@ -11,6 +11,7 @@ Oracle    : model = the objects constructed concretely (inferred ones included) 
 """
 from __future__ import annotations
 
+import threading
 from collections import Counter
 from dataclasses import dataclass, field, make_dataclass
 
@@ -52,7 +53,8 @@ def _case(draw, tier):
         k = draw(st.sampled_from(["new", "new", "new", "sym", "sym", "infer", "clear", "query", "query", "query"]))
         c = draw(st.integers(0, len(nodes) - 1))
         if k == "new":
-            ops.append(["new", c, draw(st.sampled_from(["positional", "keyword", "defaults"])), draw(st.integers(0, 3))])
+            ops.append(["new", c, draw(st.sampled_from(["positional", "keyword", "defaults"])), draw(st.integers(0, 3)),
+                        draw(st.sampled_from(["here", "here", "here", "thread_query", "thread_rule", "thread"]))])
         elif k == "sym":
             ops.append(["sym", c, draw(st.sampled_from(["query", "rule"])), draw(st.sampled_from(["noargs", "kwargs"])),
                         draw(st.sampled_from(["plain", "plain", "after_raise", "after_abandon", "after_the_raises"]))])
@@ -118,12 +120,37 @@ def check(case) -> Outcome:
             k = op[0]
             if k == "new":
                 cls = classes[op[1]]
-                if op[2] == "positional":
-                    o = cls(op[3])
-                elif op[2] == "keyword":
-                    o = cls(v=op[3])
+
+                def make(cls=cls, op=op):
+                    if op[2] == "positional":
+                        return cls(op[3])
+                    if op[2] == "keyword":
+                        return cls(v=op[3])
+                    return cls()
+                where = op[4] if len(op) > 4 else "here"
+                if where == "here":
+                    o = make()
                 else:
-                    o = cls()
+                    # constructed by another thread, which never entered a block ("outside symbolic mode"), while this
+                    # flow of control is inside one (or not); started and joined here, so the schedule is the harness's
+                    box = {}
+
+                    def work():
+                        try:
+                            box["o"] = make()
+                        except Exception as e:
+                            box["e"] = e
+                    th = threading.Thread(target=work)
+                    if where == "thread":
+                        th.start(); th.join()
+                    else:
+                        with (symbolic_mode() if where == "thread_query" else rule_mode()):
+                            th.start(); th.join()
+                    if "e" in box:
+                        return fail("exception", f"step {step} {op}: constructing K{op[1]} in another thread raised "
+                                                 f"{type(box['e']).__name__}: {box['e']}", classes=sorted(cls_set))
+                    o = box["o"]
+                    cls_set.add("new_in_" + where)
                 if type(o) is not cls or o.v != (op[3] if op[2] != "defaults" else 0) or o.w != 7:
                     return fail("concrete_construction", f"step {step} {op}: constructing K{op[1]} outside symbolic mode gave "
                                                          f"{o!r} of type {type(o).__name__}", classes=sorted(cls_set))
